@@ -550,6 +550,14 @@ int main(int argc, char **argv) {
       int i = atoi(a[1]);
       if (i < g_nsnaps && g_snaps[i]) { printf("RET released %llx\n", (unsigned long long)g_snaps[i]->sequence); ldb_release(g_db, g_snaps[i]); g_snaps[i] = NULL; }
       else printf("RET nosnap\n");
+    } else if (!strcmp(a[0], "plant") && n >= 2) {
+      /* an orphan table as a crashed process leaves it: a table-named file numbered AHEAD of the file-number
+         allocator (allocated in memory, never recorded in the MANIFEST); the next collector run must remove it */
+      char pth[1200]; FILE *pf; unsigned long long num = (unsigned long long)g_db->versions->next_file_number + strtoull(a[1], NULL, 10);
+      snprintf(pth, sizeof(pth), "%s/%06llu.ldb", g_dir, num);
+      pf = fopen(pth, "wb");
+      if (pf) { fputs("orphan table left by a crashed compaction", pf); fclose(pf); }
+      printf("RET %d num=%llu\n", pf ? 0 : -1, num);
     } else if (!strcmp(a[0], "flush")) {
       printf("RET %d\n", ldb_test_compact_memtable(g_db));
     } else if (!strcmp(a[0], "crange") && n >= 4) {
